@@ -105,6 +105,9 @@ func VfAuthChain() {
 	}
 	// credentials: 0 none, 1 well-formed for an unknown key, 2 well-formed for the known key, 3 presigned query for the known key
 	cred := zzvf.Choice("credentials", 4)
+	if vfForceNoBody {
+		zzvf.Assume(cred == 2 || cred == 3) // well-formed credentials of a known key: the request gets past the immediate checks
+	}
 	const scope = "/20240506/us-east-1/s3/aws4_request"
 	switch cred {
 	case 1:
@@ -142,6 +145,14 @@ func VfAuthChain() {
 	body := &vfBody{data: bodyBytes}
 	r.Stream = body
 	r.Body = bodyBytes
+	// fasthttp's contract for a request that carries neither Content-Length nor Transfer-Encoding: it has no body, the
+	// body stream is nil and Content-Length reads as 0
+	noFraming := vfForceNoBody || zzvf.Choice("no_content_length_and_no_transfer_encoding", 2) == 1
+	if noFraming {
+		zzvf.Assume(len(bodyBytes) == 0)
+		r.Stream = nil
+		r.Body = nil
+	}
 	r.QueryGen = func(key string) (string, bool) {
 		if vfQueryFlags[key] {
 			return "", zzvf.Bool("q." + key)
@@ -162,6 +173,9 @@ func VfAuthChain() {
 			return "srcbkt/srcobj", true
 		}
 		if key == "content-length" {
+			if noFraming {
+				return "0", true
+			}
 			if zzvf.Bool("h.content-length") {
 				return "2", true
 			}
@@ -342,4 +356,49 @@ func VfDecodeURL() {
 	} else {
 		zzvf.Reach("refused")
 	}
+}
+
+// VfPresignCrash: C20 – the presigned-URL authentication middleware on malformed query credentials: one of X-Amz-Credential,
+// X-Amz-Date, X-Amz-Expires is absent or holds arbitrary short bytes (the others are well formed); it never panics.
+func VfPresignCrash() {
+	ctx := zzvfbe.NewRequest()
+	r := zzvfbe.R
+	r.Method = "GET"
+	r.Path = "/bkt"
+	r.Locals["region"] = "us-east-1"
+	n := 4 + 2*zzvf.Tier()
+	zzvf.Bound("query_value_len_max", n)
+	const scope = "/20240506/us-east-1/s3/aws4_request"
+	hostile := zzvf.Choice("hostile_parameter", 3)
+	mode := zzvf.Choice("hostile_shape", 2) // 0 absent, 1 arbitrary bytes
+	set := func(idx int, key, good string) {
+		switch {
+		case idx != hostile:
+			r.SetQuery(key, good)
+		case mode == 1:
+			r.SetQuery(key, zzvf.String("value", n))
+		}
+	}
+	r.SetQuery("X-Amz-Algorithm", "AWS4-HMAC-SHA256")
+	set(0, "X-Amz-Credential", "caller"+scope)
+	set(1, "X-Amz-Date", "20240506T070809Z")
+	set(2, "X-Amz-Expires", "600")
+	r.SetQuery("X-Amz-SignedHeaders", "host")
+	r.SetQuery("X-Amz-Signature", "abcd")
+	be := &zzvfbe.Recorder{}
+	zzvfbe.Current = be
+	zzvfbe.SigChecks = nil
+	root := middlewares.RootUserConfig{Access: "root", Secret: "rootsec"}
+	_ = middlewares.VerifyPresignedV4Signature(root, vfIAM{}, nil, nil, "us-east-1", false)(ctx)
+	zzvf.Reach("answered")
+}
+
+var vfForceNoBody = false
+
+// VfNoBodyStream: C20 – requests that carry neither Content-Length nor Transfer-Encoding (fasthttp then provides no body
+// stream) with well-formed credentials of a known key, through the middleware chain the real server constructor installs and
+// every route handler over a backend that reads the body the way the posix backend does: nothing panics.
+func VfNoBodyStream() {
+	vfForceNoBody = true
+	VfAuthChain()
 }
